@@ -54,7 +54,8 @@ def install():
 class PipeCase:
     """Description of one pipeline configuration (plain data, JSON-able through key())."""
 
-    def __init__(self, gname, bounds, mode="lazy", max_messages=4, fault=None, consumer=("all",), stored=(), save=None, processor="threaded_mailbox", save_when=None):
+    def __init__(self, gname, bounds, mode="lazy", max_messages=4, fault=None, consumer=("all",), stored=(), save=None, processor="threaded_mailbox", save_when=None, plugin_cap=None):
+        self.plugin_cap = tuple(plugin_cap) if plugin_cap else None  # (node, k): that plugin declares its own max_messages = k
         self.gname, self.bounds, self.mode, self.max_messages = gname, tuple(bounds), mode, max_messages
         self.fault = tuple(fault) if fault else None
         self.consumer, self.stored = tuple(consumer), tuple(stored)
@@ -67,12 +68,21 @@ class PipeCase:
 
     def key(self):
         return dict(graph=self.gname, bounds=self.bounds, mode=self.mode, max_messages=self.max_messages, fault=self.fault, consumer=self.consumer,
-                    stored=self.stored, save=self.save, processor=self.processor, save_when=self.save_when)
+                    stored=self.stored, save=self.save, processor=self.processor, save_when=self.save_when, plugin_cap=self.plugin_cap)
 
     @staticmethod
     def from_key(k):
         tup = lambda x: tuple(tup(y) for y in x) if isinstance(x, list) else x
-        return PipeCase(k["graph"], tup(k["bounds"]), k["mode"], k["max_messages"], tup(k["fault"]), tup(k["consumer"]), tup(k["stored"]), tup(k["save"]), k["processor"], k.get("save_when"))
+        return PipeCase(k["graph"], tup(k["bounds"]), k["mode"], k["max_messages"], tup(k["fault"]), tup(k["consumer"]), tup(k["stored"]), tup(k["save"]), k["processor"], k.get("save_when"), tup(k.get("plugin_cap")))
+
+    def intended_capacity(self, data_type):
+        """capacity a mailbox is meant to have: the plugin's own max_messages if it declares one, else the context option"""
+        if self.plugin_cap:
+            node, k = self.plugin_cap
+            for n in self.spec:
+                if n["name"] == node and data_type in g.provides_of(n):
+                    return k
+        return self.max_messages
 
     def sources(self):
         return {n["name"]: dict(iv=self.iv, bounds=self.bounds) for n in self.spec if n["kind"] == "source"}
@@ -96,6 +106,8 @@ class PipeHarness(explore.Harness):
                 self.obs["max_held"][name] = n
             if not mb.lazy and n > mb.max_messages:
                 return f"mailbox {name} holds {n} > capacity {mb.max_messages}"
+            if not mb.lazy and n > self.pc.intended_capacity(name):
+                return f"mailbox {name} holds {n} > capacity {self.pc.intended_capacity(name)} (the context's max_messages / the plugin's own max_messages); the mailbox was configured with {mb.max_messages}"
         return None
 
     def build(self):
@@ -112,6 +124,8 @@ class PipeHarness(explore.Harness):
                 a["save_when"] = strax.SaveWhen.EXPLICIT if n["kind"] != "multi" else immutabledict({p: strax.SaveWhen.EXPLICIT for p in g.provides_of(n)})
             if pc.mode == "workers" and n["kind"] in ("map", "filter", "merge2"):
                 a["parallel"] = "thread"
+            if pc.plugin_cap and pc.plugin_cap[0] == n["name"]:
+                a["max_messages"] = pc.plugin_cap[1]
             a["rechunk_on_save"] = False  # keep the chunk numbering of the saved files equal to the produced chunks
             attrs[n["name"]] = a
         classes = g.make_classes(pc.spec, world, attrs)
